@@ -513,7 +513,7 @@ func main() {
 	// vacuity: resolution rules the run must have exercised
 	for _, need := range []string{"use:def/local", "use:def/cell", "use:def/free", "use:class/local", "use:class/free", "use:comp/free", "use:lambda/free", "use:class/free+ns", "use(__class__):def/free"} {
 		if orgCount[need] == 0 {
-			common.Inconclusive("property=C03 vacuous run: no log entry produced by rule %s", need)
+			common.Vacuous("property=C03 vacuous run: no log entry produced by rule %s", need)
 		}
 	}
 	rep.Finish()
